@@ -266,4 +266,37 @@ def shapes(tier, seed):
         c = good_isa()
         mut(c)
         S.append(CorruptionShape(f'corrupt:{name}', config=c, files={'main.asm': 'nop\n'}))
+    if tier != 'quick':
+        # the same single faults applied to structurally different well-formed definitions
+        import random
+        rnd = random.Random(1900 + seed)
+        for b in range(12):
+            def base():
+                c = good_isa()
+                g = c['general']
+                g['endian'] = ['big', 'little'][b % 2]
+                g['address_size'] = [8, 12, 16, 24][b % 4]
+                if b % 3 == 0:
+                    c['predefined']['memory_zones'] = [{'name': 'GLOBAL', 'start': 0, 'end': (1 << g['address_size']) - 1},
+                                                       {'name': 'ROM', 'start': 0x10, 'end': 0x7f}]
+                else:
+                    c['predefined']['memory_zones'] = [{'name': 'ROM', 'start': 0x10, 'end': 0x7f}]
+                if b % 2:
+                    c['instructions']['mov']['variants'] = [{'bytecode': {'value': 9, 'size': 5}, 'operands': {
+                        'count': 1, 'specific_operands': {'one': {'list': {'r': {'type': 'register', 'register': 'rb',
+                                                                                'bytecode': {'value': 1, 'size': 3}}}}}}}]
+                if b % 4 == 2:
+                    g['identifier'] = {'name': 'lang', 'version': '1.0.0'}
+                return c
+            S.append(CorruptionShape(f'wellformed:variation{b}', config=base(), files={'main.asm': 'mov ra, 5\nbset 3\nmov2 rb, 1\n'},
+                                     expect=['ok']))
+            for name, mut in corruptions():
+                if mut is None or name.startswith('zone-'):
+                    continue
+                c = base()
+                try:
+                    mut(c)
+                except KeyError:
+                    continue
+                S.append(CorruptionShape(f'corrupt{b}:{name}', config=c, files={'main.asm': 'nop\n'}))
     return S
